@@ -172,6 +172,8 @@ func runC36(c *vh.Ctx) {
 		{{true, 1, 1}, {true, 2, 0}, {false, 1, 0}, {false, 2, 0}},
 		{{true, 1, 1}, {true, 2, 2}, {true, 1, 3}, {true, 3, 4}, {false, 1, 0}, {false, 2, 0}},
 		{{true, 1, 1}, {true, 1, 0}, {true, 1, 2}, {true, 2, 3}, {true, 3, 4}, {false, 1, 0}, {false, 2, 0}, {false, 3, 0}},
+		// re-Put of the same session pointer must refresh recency: capacity 2, a b a(same) c -> b evicted, a kept
+		{{true, 1, 1}, {true, 2, 2}, {true, 1, 1}, {true, 3, 3}, {false, 1, 0}, {false, 2, 0}, {false, 3, 0}},
 	}
 	nextV := 1
 	for i := 0; i < c.N+len(corpus)*4; i++ {
@@ -185,14 +187,24 @@ func runC36(c *vh.Ctx) {
 			capacity = 1 + i%4
 		} else {
 			nkeys := 2 + c.Rng.Intn(6)
+			lastVal := map[int]int{} // the session most recently Put under each key in this history
 			for j := 2 + c.Rng.Intn(30); j > 0; j-- {
 				k := 1 + c.Rng.Intn(nkeys)
 				switch r := c.Rng.Intn(10); {
 				case r < 4:
 					ops = append(ops, lruOp{false, k, 0})
 				case r < 7:
-					ops = append(ops, lruOp{true, k, 1 + nextV%60})
+					v := 1 + nextV%60
 					nextV++
+					// a quarter of the Puts store the very same *ClientSessionState again (same pointer under the
+					// same key: a refresh must still move the entry to the front), some store another key's session
+					if lv, ok := lastVal[k]; ok && c.Rng.Intn(4) == 0 {
+						v = lv
+					} else if ov, ok := lastVal[1+c.Rng.Intn(nkeys)]; ok && c.Rng.Intn(8) == 0 {
+						v = ov
+					}
+					lastVal[k] = v
+					ops = append(ops, lruOp{true, k, v})
 				default:
 					ops = append(ops, lruOp{true, k, 0})
 				}
